@@ -176,7 +176,7 @@ Inductive op :=
 | IsSched (id : Z)
 | HandleAdd            (* worker: pendingAdd arm *)
 | HandleDel            (* worker: pendingDel arm *)
-| Pass (n : Z)         (* n time units pass *)
+| Pass (n : Z)         (* n time units pass (negative: the clock is set back) *)
 | Tick                 (* worker: ticker arm with the current time *)
 | Probe.
 
@@ -256,6 +256,12 @@ Definition core_probe (c : core) : list wnode :=
   | CHeap h => map (mkW 0 0) (hsort h)
   end.
 
+(* update(current) with current < lastTime ("time gone backwards"): the wheel takes the
+   earlier reading as its new lastTime without ticking.  The model keeps lastTime = wtt and
+   its clock relative to it, so the same event moves the model's clock up to wtt. *)
+Definition tick_clock (s : st) : Z :=
+  match score s with CWheel w => Z.max (sclock s) (wtt w) | CHeap _ => sclock s end.
+
 Definition step (s : st) (o : op) : st * out :=
   match o with
   | Start d => schedule s (Z.max d 0) 0
@@ -280,10 +286,10 @@ Definition step (s : st) (o : op) : st * out :=
       | id :: q =>
           (mkSt (core_del (score s) id) (sclock s) (srefer s) (snext s) (spadd s) q, OFlag true)
       end
-  | Pass n => (mkSt (score s) (sclock s + Z.max n 0) (srefer s) (snext s) (spadd s) (spdel s), ONone)
+  | Pass n => (mkSt (score s) (sclock s + n) (srefer s) (snext s) (spadd s) (spdel s), ONone)
   | Tick =>
       let '(c, r, o) := core_tick (score s) (srefer s) (sclock s) in
-      (mkSt c (sclock s) r (snext s) (spadd s) (spdel s), ODeliv o)
+      (mkSt c (tick_clock s) r (snext s) (spadd s) (spdel s), ODeliv o)
   | Probe => (s, OProbe (core_probe (score s)))
   end.
 
